@@ -55,6 +55,21 @@ pub fn run<A: Cx>(d: &mut Drv<A>, scale: usize, all_offsets: bool) {
                 }
             }
         }
+        // ---- value patterns: runs of the lowest / highest code (all-zero and all-one words), too long to fit
+        {
+            let codes = d.codes();
+            let lo = *codes.iter().min().unwrap();
+            let hi = *codes.iter().max().unwrap();
+            for (fill, tailv) in [(lo, lo), (hi, hi), (lo, hi), (hi, lo)] {
+                let mut v = vec![fill; kmax + 40];
+                v.push(tailv);
+                d.emit(json!({"op": "fromsyms", "dst": 11, "c": A::NAME, "via": "iter", "syms": v}));
+                for (a, k) in [(0usize, kmax), (1, kmax), (0, kmax + 1), (3, kmax + 1), (2, kmax + 30), (kmax + 40 - 1, 2)] {
+                    d.emit(json!({"op": "toint", "src": sl(11, a, a + k), "via": "try", "fallible": true, "width": 64}));
+                }
+                d.emit(json!({"op": "toint", "src": sl(11, 1, kmax + 9), "via": "fromseq", "fallible": false, "width": 64}));
+            }
+        }
         // ---- the by-value conversion of a value with a history (truncated / drained / rebuilt)
         for _ in 0..4 {
             let k = d.rng.range(1, kmax);
@@ -103,7 +118,7 @@ pub fn run<A: Cx>(d: &mut Drv<A>, scale: usize, all_offsets: bool) {
         // results of reverse / complement of an offset slice
         d.emit(json!({"op": "copying", "dst": 4, "src": sl(1, off, off + n), "t": "rev", "via": "slice"}));
         d.emit(json!({"op": "intoraw", "r": 4}));
-        if matches!(A::NAME, "dna" | "iupac" | "mdna" | "miupac" | "degen") {
+        if matches!(A::NAME, "dna" | "iupac" | "mdna" | "miupac" | "degen" | "x3") {
             d.emit(json!({"op": "copying", "dst": 4, "src": sl(1, off, off + n), "t": "comp", "via": "slice"}));
             d.emit(json!({"op": "intoraw", "r": 4}));
             d.emit(json!({"op": "copying", "dst": 4, "src": sl(1, off, off + n), "t": "revcomp", "via": "slice"}));
